@@ -635,7 +635,10 @@ def _judge(sc, fault, stats):
             ref = solo(bad, bad_data, [f for f in sc["flags"]], "fix", probes=sc.get("probes"), cls=sc["cls"])
             if ref.ok and ref.exit in (0, 3):
                 solo_bad = ref.after
-                if solo_bad == b"" and bad_data:
+                if solo_bad == b"" and bad_data.strip():
+                    # an empty "fully fixed" version of a document that has content is not
+                    # trusted as a reference (for a blank-only document it is what fix makes
+                    # of it: "\n" -> "")
                     solo_bad = None
                     stats["degenerate_reference"] += 1
 
